@@ -2491,7 +2491,17 @@ impl<'a> Parser<'a> {
 
     fn parse_binary_expression_unguarded(&mut self, min_prec: u8) -> Result<Expression, JsError> {
         let start = self.current.span;
-        let mut left = self.parse_unary_expression()?;
+        // `#name in object`: a private name is an operand only on the left of `in`
+        let mut left = if self.check(&TokenKind::Hash) && min_prec <= 10 && !self.no_in {
+            self.advance();
+            let name = self.parse_private_identifier()?;
+            self.require_token(&TokenKind::In)?;
+            let object = Rc::new(self.parse_binary_expression(11)?);
+            let span = self.span_from(start);
+            Expression::PrivateIn(Box::new(PrivateInExpression { name, object, span }))
+        } else {
+            self.parse_unary_expression()?
+        };
 
         while let Some((op, prec, is_logical)) = self.current_binary_op() {
             if prec < min_prec {
@@ -2707,7 +2717,8 @@ impl<'a> Parser<'a> {
     fn parse_left_hand_side_expression(&mut self) -> Result<Expression, JsError> {
         let start = self.current.span;
 
-        let mut expr = if self.match_token(&TokenKind::New) {
+        let mut expr = if self.check(&TokenKind::New) && !self.peek_is(&TokenKind::Dot) {
+            self.advance();
             let callee = Rc::new(self.parse_member_expression()?);
             // Check for type arguments (<T>) or arguments (()
             let (arguments, type_arguments) =
@@ -2970,6 +2981,17 @@ impl<'a> Parser<'a> {
 
     fn parse_primary_expression(&mut self) -> Result<Expression, JsError> {
         let start = self.current.span;
+
+        // new.target
+        if self.check(&TokenKind::New) && self.peek_is(&TokenKind::Dot) {
+            self.advance();
+            self.advance();
+            match &self.current.kind {
+                TokenKind::Identifier(name) if name.as_str() == "target" => self.advance(),
+                _ => return Err(self.unexpected_token("'target' after 'new.'")),
+            }
+            return Ok(Expression::NewTarget(self.span_from(start)));
+        }
 
         match &self.current.kind {
             // Literals
